@@ -196,6 +196,7 @@ func runOne(t *testing.T, prop, tier string, sc Scenario, st *simrt.Stream, log 
 		tick := time.NewTicker(500 * time.Millisecond)
 		defer tick.Stop()
 		markCPU, markAt := cpu0, time.Now()
+		confirming, confirmAt, confirmCPU := false, time.Now(), cpu0
 		for {
 			select {
 			case <-stopWatch:
@@ -204,10 +205,20 @@ func runOne(t *testing.T, prop, tier string, sc Scenario, st *simrt.Stream, log 
 				used := cpuTime() - cpu0
 				if now := cpuTime(); now-markCPU > 100*time.Millisecond {
 					markCPU, markAt = now, time.Now()
+					confirming = false
 				} else if onBlowup != nil && time.Since(markAt) > frozenAfter {
-					c.frozen = true
-					onBlowup(c, sc, st, idx, used)
-					return
+					// The clock may have jumped (the machine was suspended, the
+					// process was starved): only a run that still uses no CPU at
+					// all during a further quarter of a minute is blocked.
+					if !confirming {
+						confirming, confirmAt, confirmCPU = true, time.Now(), now
+					} else if now-confirmCPU > 20*time.Millisecond {
+						markCPU, markAt, confirming = now, time.Now(), false
+					} else if time.Since(confirmAt) > 15*time.Second {
+						c.frozen = true
+						onBlowup(c, sc, st, idx, used)
+						return
+					}
 				}
 				if g := c.WallGuard; onBlowup != nil && ((g > 0 && used > 8*g) || used > runawayCPU) {
 					onBlowup(c, sc, st, idx, used)
